@@ -152,6 +152,7 @@ func (t *tailBuf) String() string {
 
 // panicSummary extracts "panic: …" and the first frames inside /repo from a Go crash dump.
 func panicSummary(stderr string) string {
+	stderr = normRepo(stderr)
 	i := strings.LastIndex(stderr, "panic: ")
 	if j := strings.LastIndex(stderr, "fatal error: "); j > i {
 		i = j
